@@ -122,7 +122,7 @@ def r2_tracker_removal(ctx):
             return last
         return Interp(repo, call_models={f"{NOTIFY}.is_last_output_of": model}, inline={f"{NOTIFY}.consider_purge"})
 
-    removal = lambda e: is_call(e, field="State.purging_tracker") and e.method in ("remove", "discard", "pop", "clear", "difference_update") and e.func.endswith(".notify")
+    removal = lambda e: is_call(e, field="State.purging_tracker") and e.method in ("remove", "discard", "pop", "clear", "difference_update")
     table = []
     for row in rows:
         ip = mk_ip(row["_last"])
